@@ -53,6 +53,14 @@ theorem run_writeAll_inner (s : DiskSlice) (bs : List Nat) (d : Dev) (hfa : d.fa
   unfold writeAllLoop
   simp
 
+/-- the records of the mirror loop: the same bytes at `off + i * size` for `k` copies from copy `i` on -/
+def mirrorRecs (off size : Nat) (bs : List Nat) : Nat → Nat → List Rec
+  | 0, _ => []
+  | k + 1, i => (off + i * size, bs) :: mirrorRecs off size bs k (i + 1)
+
+theorem recItems_cons (r : Rec) (rs : List Rec) : recItems (r :: rs) = recItems rs ++ [LogItem.write r.1 r.2] := by
+  simp [recItems]
+
 /-- the mirror loop of `DiskSlice::write` -/
 theorem run_writeMirrors (s : DiskSlice) (off : Nat) (bs : List Nat) (hne : 0 < bs.length)
     (hle : bs.length ≤ s.size) :
@@ -62,12 +70,14 @@ theorem run_writeMirrors (s : DiskSlice) (off : Nat) (bs : List Nat) (hne : 0 < 
         (∀ q, (∀ i', i ≤ i' → i' < i + k → ¬ (off + i' * s.size ≤ q ∧ q < off + i' * s.size + bs.length)) →
           d'.img.getByte q = d.img.getByte q) ∧
         (0 < k → ∀ q, off + i * s.size ≤ q → q < off + i * s.size + bs.length →
-          d'.img.getByte q = bs.getD (q - (off + i * s.size)) 0 % 256) := by
+          d'.img.getByte q = bs.getD (q - (off + i * s.size)) 0 % 256) ∧
+        d'.log = recItems (mirrorRecs off s.size bs k i) ++ d.log ∧
+        d'.img = applyRecs d.img (mirrorRecs off s.size bs k i) := by
   intro k
   induction k with
   | zero =>
     intro i d _ _ _ _
-    exact ⟨d, rfl, DevStep.refl d, rfl, fun _ _ => rfl, fun h => absurd h (by omega)⟩
+    exact ⟨d, rfl, DevStep.refl d, rfl, fun _ _ => rfl, fun h => absurd h (by omega), rfl, rfl⟩
   | succ k ih =>
     intro i d hfa hcd hwf hroom
     unfold DiskSlice.writeMirrors
@@ -82,11 +92,21 @@ theorem run_writeMirrors (s : DiskSlice) (off : Nat) (bs : List Nat) (hne : 0 < 
       refine ⟨by rw [← hd1]; rfl, by rw [himg1, Img.write_size], fun _ => by rw [himg1]; exact Img.wf_write _ hwf _ _,
         by rw [← hd1]; exact FsGeomEq.refl _, by rw [← hd1]; rfl⟩
     have hfs1 : d1.fs = d.fs := by rw [← hd1]; rfl
-    obtain ⟨d2, h2, hs2, hfs2, hfr2, _⟩ := ih (i + 1) d1 (by rw [hstep1.failAt]; exact hfa) (by rw [hfs1]; exact hcd)
+    obtain ⟨d2, h2, hs2, hfs2, hfr2, _, hlog2, himg2⟩ := ih (i + 1) d1 (by rw [hstep1.failAt]; exact hfa)
+      (by rw [hfs1]; exact hcd)
       (hstep1.wf hwf) (by
         intro i' h1 h2
         rw [hstep1.size]; exact hroom i' (by omega) (by omega))
-    refine ⟨d2, h2, hstep1.trans hs2, hfs2.trans hfs1, ?_, ?_⟩
+    have hlog1 : d1.log = .write (off + i * s.size) bs :: d.log := by
+      rw [← hd1, didWrite_log _ _ hfit]; rfl
+    refine ⟨d2, h2, hstep1.trans hs2, hfs2.trans hfs1, ?_, ?_, ?_, ?_⟩
+    rotate_left 2
+    · rw [hlog2, hlog1]
+      show _ = recItems ((off + i * s.size, bs) :: mirrorRecs off s.size bs k (i + 1)) ++ d.log
+      rw [recItems_cons]
+      simp
+    · rw [himg2, himg1]
+      rfl
     · intro q hq
       rw [hfr2 q (fun i' h1 h2 => hq i' (by omega) (by omega)), himg1,
         Img.getByte_write_of_not_mem _ hwf _ _ _ (hq i (Nat.le_refl _) (by omega))]
@@ -113,6 +133,11 @@ structure FatWrote (fs : FsState) (d d' : Dev) (o : Nat) (bs : List Nat) : Prop 
       ¬ ((fatSliceOf fs).beginOff + o + i * (fatSliceOf fs).size ≤ q ∧
          q < (fatSliceOf fs).beginOff + o + i * (fatSliceOf fs).size + bs.length)) →
     d'.img.getByte q = d.img.getByte q
+  /-- the device write records: the bytes, once per FAT copy, first copy first -/
+  log : d'.log = recItems (mirrorRecs ((fatSliceOf fs).beginOff + o) (fatSliceOf fs).size bs (fatSliceOf fs).mirrors 0) ++
+    d.log
+  img : d'.img = applyRecs d.img
+    (mirrorRecs ((fatSliceOf fs).beginOff + o) (fatSliceOf fs).size bs (fatSliceOf fs).mirrors 0)
 
 /-- `q` lies in the byte window of the FAT entry of cluster `c` in one of the FAT copies -/
 def FatEntryPos (fs : FsState) (c q : Nat) : Prop :=
@@ -140,7 +165,7 @@ theorem run_fat_writeAll (fs : FsState) (s : DiskSlice) (hs : IsFatSlice fs s) (
     rw [Nat.succ_mul] at this
     rw [hb]; rw [hsz] at this ⊢ hfit
     omega
-  obtain ⟨d1, h1, hs1, hfs1, hfr1, hv1⟩ := run_writeMirrors s (s.beginOff + s.offset) bs hne (by omega)
+  obtain ⟨d1, h1, hs1, hfs1, hfr1, hv1, hlog1, himg1⟩ := run_writeMirrors s (s.beginOff + s.offset) bs hne (by omega)
     s.mirrors 0 d hfa hcd hwf hroom
   have hmin : min bs.length (s.size - s.offset) = bs.length := by omega
   obtain ⟨k, hk⟩ : ∃ k, bs.length = k + 1 := ⟨bs.length - 1, by omega⟩
@@ -154,7 +179,7 @@ theorem run_fat_writeAll (fs : FsState) (s : DiskSlice) (hs : IsFatSlice fs s) (
     simp only [hmin]
     rw [if_neg (by omega), List.take_length, run_bind_ok h1]
     rfl
-  refine ⟨d1, ?_, hs1, hfs1, ?_, ?_, ?_⟩
+  refine ⟨d1, ?_, hs1, hfs1, ?_, ?_, ?_, by rw [hlog1, hb, hsz, hm], by rw [himg1, hb, hsz, hm]⟩
   · unfold writeAll
     rw [hk]
     unfold writeAllLoop
@@ -197,5 +222,36 @@ theorem run_fat_writeAll (fs : FsState) (s : DiskSlice) (hs : IsFatSlice fs s) (
     rw [hm] at h2
     rw [hb, hsz] at h34
     exact hq i' (by omega) h34
+
+/-- the records of one FAT update are entry-window records of `c`: the first-copy record changes the decoded value of
+    `c` only (hypothesis `hkeep`, the read-modify-write), the others do not touch the first copy -/
+theorem classified_mirrors (fs : FsState) (sz : Nat) (hg : Geo fs sz) (c : Nat) (hc : c < fs.totalClusters + 2)
+    (bs : List Nat) (hlen : bs.length = entWidth fs.fatType) (E D : Nat → Prop) (hE : E c) :
+    ∀ (k i : Nat) (img : Img), img.WF → img.size = sz → i + k ≤ (fatSliceOf fs).mirrors →
+      (i = 0 → ∀ x, x ≠ c →
+        tabView fs (img.write ((fatSliceOf fs).beginOff + entOff fs.fatType c) bs) x = tabView fs img x) →
+      Classified fs E D img
+        (mirrorRecs ((fatSliceOf fs).beginOff + entOff fs.fatType c) (fatSliceOf fs).size bs k i) := by
+  intro k
+  induction k with
+  | zero => intro i img _ _ _ _; exact trivial
+  | succ k ih =>
+    intro i img hwf hsz hik hkeep
+    refine ⟨Or.inr (Or.inr ⟨c, i, hE, hc, by omega, by simp only [Nat.add_assoc], hlen, ?_⟩), ?_⟩
+    · intro x hx
+      by_cases hi : i = 0
+      · subst hi
+        simp only [Nat.zero_mul, Nat.add_zero]
+        exact hkeep rfl x hx
+      · have hfat : FatAgree fs img (img.write ((fatSliceOf fs).beginOff + entOff fs.fatType c + i * (fatSliceOf fs).size) bs) := by
+          intro q h1 h2
+          apply Img.getByte_write_of_not_mem _ hwf
+          rintro ⟨h3, _⟩
+          have : 1 * (fatSliceOf fs).size ≤ i * (fatSliceOf fs).size := Nat.mul_le_mul_right _ (by omega)
+          omega
+        have hg' : Geo fs img.size := by rw [hsz]; exact hg
+        rw [tabView_congr hg' hfat]
+    · exact ih (i + 1) _ (Img.wf_write _ hwf _ _) (by rw [Img.write_size]; exact hsz) (by omega)
+        (fun h => absurd h (by omega))
 
 end FatVerif.FileSim
